@@ -859,7 +859,7 @@ public:
 
         auto* f = next(data(), min(pos, size()));
         auto* l = next(data(), min(pos + count, size()));
-        detail::str_replace(f, l, str, next(str, strlen(str)));
+        detail::str_replace(f, l, str, next(str, traits_type::length(str)));
         return *this;
     }
 
@@ -867,7 +867,7 @@ public:
     {
         auto* f = to_mutable_iterator(first);
         auto* l = to_mutable_iterator(last);
-        detail::str_replace(f, l, str, next(str, strlen(str)));
+        detail::str_replace(f, l, str, next(str, traits_type::length(str)));
         return *this;
     }
 
@@ -1040,7 +1040,7 @@ public:
     /// \bug See tests.
     [[nodiscard]] constexpr auto rfind(const_pointer s, size_type pos, size_type count) const noexcept -> size_type
     {
-        return etl::strings::rfind<Char, Traits>(*this, s, count, pos);
+        return etl::strings::rfind<Char, Traits>(*this, basic_string_view<Char, Traits>{s, count}, pos);
     }
 
     /// \brief Finds the last substring equal to the given character sequence.
